@@ -23,6 +23,7 @@ fn main() {
             "c08" => gens::gen_c08(r),
             "c15" => gens::gen_c15(r),
             "c12" => gens::gen_c12(r),
+            "c03" => gens::gen_c03(r),
             "c10" => gens::gen_c10(r, false),
             "c10long" => gens::gen_c10(r, true),
             other => panic!("unknown generator {other}"),
